@@ -226,6 +226,13 @@ pub fn exec(rest: &str, out: &mut Out) -> (String, bool) {
     let mut c = v.clone();
     c.canonicalize();
     let reply = show_value(&c);
+    // content only: the same value built another way (heap-backed buffers, entry-by-entry objects)
+    // canonicalizes to the same bytes
+    {
+        let mut cr = crate::ord::rebuilt(&v);
+        cr.canonicalize();
+        out.oracle(cr.compact_print().to_string() == c.compact_print().to_string() && cr == c, "canonicalization depends on the content only (value rebuilt with heap-backed buffers)", || show_value(&cr));
+    }
     let ijson = is_ijson(&v);
     out.count(if ijson { "ijson" } else { "not_ijson" });
     // the number table of the request is what the real code does now (ties the model's opaque numCanon)
